@@ -178,7 +178,10 @@ pub fn gen_rs_cases(r: &mut Rng, n: usize) -> Vec<Case> {
     let mut v = vec![];
     for _ in 0..n {
         let xr = *r.pick(&[8usize, 12, 20, 50, 100, 200]);
-        let (a, b) = (-2.0, 2.0);
+        // interval lengths from 4 down to 0.02 (short intervals make absolute tolerances bite)
+        let w = *r.pick(&[4.0, 4.0, 1.0, 0.3, 0.1, 0.05, 0.02]);
+        let mid = if w < 4.0 { r.dyadic(-1.0, 1.0, 3) } else { 0.0 };
+        let (a, b) = (mid - w / 2.0, mid + w / 2.0);
         let h = (b - a) / xr as f64;
         let nf = r.below(3) as usize; let ng = r.below(3) as usize;
         let mut cells: Vec<usize> = vec![];
@@ -189,7 +192,7 @@ pub fn gen_rs_cases(r: &mut Rng, n: usize) -> Vec<Case> {
         let (fpts, gpts) = pts.split_at(nf);
         let mut gpts: Vec<f64> = gpts.to_vec();
         // shared turning point
-        if nf > 0 && ng > 0 && r.chance(0.3) { gpts[0] = fpts[0]; }
+        if nf > 0 && ng > 0 && r.chance(0.45) { gpts[0] = fpts[0]; }
         let mk = |r: &mut Rng, tp: &[f64]| -> Vec<f64> { let mut d = vec![if r.chance(0.5) { 1.0 } else { -1.0 } * r.uniform(0.5, 1.5)]; for t in tp { d = pmul(&d, &[-t, 1.0]); } let mut p = pint(&d); p[0] = r.dyadic(-1.0, 1.0, 2); p };
         let fp = mk(r, fpts); let gp = mk(r, &gpts);
         let mut tps: Vec<f64> = fpts.iter().chain(gpts.iter()).copied().collect();
@@ -197,7 +200,7 @@ pub fn gen_rs_cases(r: &mut Rng, n: usize) -> Vec<Case> {
         let rev = r.chance(0.4);
         if rev { tps.reverse(); }
         let iv = if rev { format!("[{:?}, {:?}]", b, a) } else { format!("[{:?}, {:?}]", a, b) };
-        let cfg = Cfg { ci: r.chance(0.5), xr, yr: *r.pick(&[1usize, 2, 7, 50]), ic: *r.pick(&[0usize, 1, 3, 8]), mrf: 200, mi: 200, tol: 10f64.powi(r.range(-10, -6) as i32) };
+        let cfg = Cfg { ci: r.chance(0.5), xr, yr: *r.pick(&[1usize, 2, 7, 50]), ic: *r.pick(&[0usize, 1, 3, 8]), mrf: 200, mi: 200, tol: 10f64.powi(r.range(-10, if w < 0.5 { -7 } else { -6 }) as i32) };
         v.push(Case { rs: true, f: ptext(&fp, "x"), c: ptext(&gp, "x"), iv, cfg, kind: "rsclass", poly: Some((fp, gp)), roots: None, saddle: false, rs_tp: Some(tps) });
     }
     v
@@ -217,6 +220,18 @@ pub fn api_any_cases(r: &mut Rng, n: usize) -> Vec<Case> {
         cases.push(Case { rs: k % 2 == 1, f: l.clone(), c: "0".into(), iv: "[0,1]".into(), cfg: cfg.clone(), kind: "api-any", poly: None, roots: None, saddle: false, rs_tp: None });
         cases.push(Case { rs: k % 2 == 0, f: "x".into(), c: l.clone(), iv: "[0,1]".into(), cfg: cfg.clone(), kind: "api-any", poly: None, roots: None, saddle: false, rs_tp: None });
         cases.push(Case { rs: false, f: "x".into(), c: "0".into(), iv: format!("[0,1]{}", l), cfg, kind: "api-any", poly: None, roots: None, saddle: false, rs_tp: None });
+    }
+    // look-alike operators and very long interval lists
+    for (k, e) in ["x⋅x", "x×2", "x÷2", "x·x", "2−x", "(x)⋅(x+1)"].iter().enumerate() {
+        let cfg = Cfg { ci: false, xr: 2, yr: 2, ic: 1, mrf: 10, mi: 10, tol: 1e-6 };
+        cases.push(Case { rs: k % 2 == 1, f: e.to_string(), c: "0".into(), iv: "[0,1]".into(), cfg: cfg.clone(), kind: "api-any", poly: None, roots: None, saddle: false, rs_tp: None });
+        cases.push(Case { rs: false, f: "x".into(), c: e.replace('x', "y"), iv: "[0,1]".into(), cfg: cfg.clone(), kind: "api-any", poly: None, roots: None, saddle: false, rs_tp: None });
+        cases.push(Case { rs: true, f: "x".into(), c: "x".into(), iv: format!("[0,{}]", e.replace('x', "2")), cfg, kind: "api-any", poly: None, roots: None, saddle: false, rs_tp: None });
+    }
+    for (k, m) in [51usize, 128, 129, 130, 257, 1000].iter().enumerate() {
+        let iv = (0..*m).map(|j| format!("[{},{}]", j, j + 1)).collect::<Vec<_>>().join(",");
+        let cfg = Cfg { ci: k % 2 == 0, xr: 1, yr: 1, ic: 0, mrf: 20, mi: 20, tol: 1e-6 };
+        cases.push(Case { rs: k % 2 == 1, f: "x + 1".into(), c: if k % 2 == 1 { "2*x".into() } else { "y/2".into() }, iv, cfg, kind: "api-any", poly: None, roots: None, saddle: false, rs_tp: None });
     }
     for i in 0..n {
         let rs = i % 2 == 1;
@@ -397,7 +412,7 @@ pub fn run(o: &Opts) -> Report {
     let mut r = Rng::new(o.seed ^ 0xD2D2);
     let mut cases = gen_cases(&mut r, if o.thorough { 2400 } else { 360 });
     cases.extend(gen_root_cases(&mut r, if o.thorough { 1500 } else { 240 }));
-    cases.extend(gen_rs_cases(&mut r, if o.thorough { 1200 } else { 200 }));
+    cases.extend(gen_rs_cases(&mut r, if o.thorough { 3000 } else { 500 }));
     // offsets of the c-curve (C12): the same case with c + k
     let extra: Vec<Case> = cases.iter().filter(|c| !c.rs && c.kind != "roots").take(if o.thorough { 300 } else { 60 }).map(|c| { let mut d = c.clone(); d.c = format!("({}) + {}", c.c, r.pick(&["1", "1000", "pi", "2.5"])); d.kind = "offset"; d.poly = None; d }).collect();
     let n_base = cases.len();
